@@ -112,3 +112,60 @@ func LogicFragment() *Fragment {
 		Or:     true, And: true, Not: true, Paren: true,
 	}
 }
+
+// ErrFragment (C11): every construct as a one-hole context around erroring
+// sub-expressions (the compounds).
+func ErrFragment(compounds []string) *Fragment {
+	f := &Fragment{
+		Idents: Tks("a", "b"),
+		Funcs:  Tks("not_null", "to_array", "map", "sort_by", "length"),
+		Leaves: Tks("@", "`1`"),
+		Nums:   Tks("0"),
+		Slices: [][]model.Tok{Tks(":")},
+		Cmps:   Tks("==", "<"),
+		Star:   true, WildIdx: true, Flatten: true, Filter: true, Dot: true, Pipe: true, Or: true, And: true,
+		Not: true, Paren: true, MaxList: 2, MaxHash: 2, MaxArgs: 2, MinArgs: 1, ExpRef: true,
+		Weight: StructuralWeight,
+	}
+	for _, c := range compounds {
+		f.Compounds = append(f.Compounds, Lx(c))
+	}
+	return f
+}
+
+// FuncFragment: every built-in with every argument shape over two fields,
+// literals and expression references (used by C16 / C05 / C06).
+func FuncFragment(names []string) *Fragment {
+	f := &Fragment{
+		Idents: Tks("a", "b"),
+		Leaves: Tks("@", "`1`", "`\"a\"`", "`[]`", "`{}`", "`null`"),
+		Nums:   Tks("0"),
+		Dot:    true, WildIdx: true, Flatten: true, Pipe: true, MaxList: 1,
+		MaxArgs: 3, MinArgs: 0, ExpRef: true,
+		Weight: StructuralWeight,
+	}
+	for _, n := range names {
+		f.Funcs = append(f.Funcs, model.T(model.UID, n))
+	}
+	return f
+}
+
+// MixedFragment: the full node alphabet with a small leaf alphabet and no bare
+// expression references (C15, C06, C12, C13).
+func MixedFragment(extraLeaves ...string) *Fragment {
+	f := &Fragment{
+		Idents: Tks("a", "b"),
+		Funcs:  Tks("length", "keys", "to_array", "sort_by", "not_null"),
+		Leaves: Tks("@", "`1`", "`[2,1]`"),
+		Nums:   Tks("0", "-1"),
+		Slices: [][]model.Tok{Tks(":", ":", "-1")},
+		Cmps:   Tks("==", "<"),
+		Star:   true, WildIdx: true, Flatten: true, Filter: true, Dot: true, Pipe: true, Or: true, And: true,
+		Not: true, Paren: true, MaxList: 2, MaxHash: 1, MaxArgs: 2, MinArgs: 1, ExpRef: true,
+		Weight: StructuralWeight,
+	}
+	for _, l := range extraLeaves {
+		f.Leaves = append(f.Leaves, model.T(model.UID, l))
+	}
+	return f
+}
